@@ -11,7 +11,7 @@ func FilterTG(p *prog.Program, log []Rec) []Rec {
 	for _, r := range log {
 		switch r.Ev {
 		case "init", "started", "req", "ans", "again", "error", "cease", "fin", "wait", "timeout", "blocked",
-			"listening", "observed", "deliver", "delivered", "cancel", "infra", "other":
+			"listening", "observed", "deliver", "delivered", "cancel", "infra", "other", "cand", "ansc", "crash":
 			out = append(out, r)
 		case "completion":
 			if n := p.Node(r.Node); n != nil && n.Kind == "end" && n.Scope == "" {
